@@ -458,7 +458,26 @@ def main(prop_module, prop, argv=None):
         ctx.lean = prepare_lean(prop, tier, ctx.log)
         if a.replay:
             return prop_module.replay(ctx, json.load(open(a.replay)))
+        # replay the witnesses of the listed findings on the real code
+        stale = []
+        wf = getattr(prop_module, "witness_fails", None)
+        for f in ctx.findings:
+            fails = None
+            if wf is not None:
+                try:
+                    fails = wf(ctx, f)
+                except Exception as e:  # noqa
+                    ctx.log(f"[findings] witness replay of {f['id']} raised {type(e).__name__}: {e}")
+                    fails = None
+            if f.get("status", "open") == "open":
+                f["_active"] = bool(fails)
+            elif fails:
+                stale.append(f)
         res = prop_module.run(ctx)
+        for f in stale:
+            res.violation(dict(finding=f["id"], witness=f.get("witness")),
+                          "a defect recorded as fixed fails again: " + f["what"])
+        res.active_quirks = sorted({f.get("quirk") for f in ctx.findings if f.get("_active") and f.get("quirk")})
         return finish(ctx, res, level=getattr(prop_module, "LEVEL", "proof"))
     except Exception:
         traceback.print_exc()
